@@ -88,7 +88,13 @@ def main():
             variants.append(lang.assertion(lang.toks(phi, rng, 0.1), rng)); facs.append("ltl_offline")
         for k, ts in enumerate(variants):
             fac = facs[k]
-            cases.append({"mode": "C15", "tokens": lang.strip(ts), "text": lang.render(ts), "consts": [], "declare": ["x", "y"],
+            text = lang.render(ts)
+            if k > 0 and rng.random() < 0.3:
+                # white space is not part of the language: blanks / line breaks around the text, also after the final ";"
+                # (rtamt rejects white space after a final ";" - it appends a second one; not covered by the property, see DESIGN 8)
+                text = rng.choice(["", " ", "\n"]) + text.replace(" ", rng.choice([" ", "  ", "\n", "\t"]), 1) + \
+                       ("" if text.endswith(";") else rng.choice([" ", "\n", "  \n\n", "\t"]))
+            cases.append({"mode": "C15", "tokens": lang.strip(ts), "text": text, "consts": [], "declare": ["x", "y"],
                           "phi": phi, "data": data, "online": online and fac != "ltl_offline", "factory": fac, "group": i, "variant": k})
     out = runner.run_text_cases(cases)
     ref = {}
